@@ -59,7 +59,7 @@ func joinTokens(toks []htok) string {
 func genC12Input(t *simrt.Tape, tier string) c12Input {
 	base := genSentence(t, t.Choose(4) == 3)
 	runes := []rune(base.Text)
-	class := t.Choose(12)
+	class := t.Choose(14)
 	switch class {
 	case 0: // prefix
 		n := 0
@@ -167,6 +167,40 @@ func genC12Input(t *simrt.Tape, tier string) c12Input {
 			b.WriteString(pool[t.Choose(len(pool))])
 		}
 		return c12Input{Class: "random-bytes", Src: b.String()}
+	case 11: // a long token (1..100 characters) at or near the error point: diagnostics quote and truncate the token text
+		n := t.Range(1, 100)
+		var tok string
+		switch t.Choose(5) {
+		case 0:
+			tok = "1" + strings.Repeat("7", n-1) // out of range beyond 19 digits: rejected as a literal
+		case 1:
+			tok = "0x" + strings.Repeat("f", n)
+		case 2:
+			tok = `"` + strings.Repeat("s", n) + `"`
+		case 3:
+			tok = `"` + strings.Repeat(`\\`, n/2) + strings.Repeat("q", n%2) + `"`
+		default:
+			tok = `"` + strings.Repeat("é", n) + `"`
+		}
+		shapes := []string{"[%s %s](List)", "[1, 2]%s(List)", "[%s](List) %s", "[\n    %s %s\n](Set)\n", "[%s", "[1: %s %s](Catalog)", "%s"}
+		sh := shapes[t.Choose(len(shapes))]
+		src := strings.ReplaceAll(sh, "%s", tok)
+		return c12Input{Class: "long-token", Src: src, Note: fmt.Sprintf("token of %d bytes", len(tok)), TokenLevel: true}
+	case 12: // a missing end-of-line inside a multi-line sequence (two items on one line)
+		toks := tokenize(base.Text)
+		toks = toks[:len(toks)-1]
+		var eols []int
+		for i, k := range toks {
+			if k.Kind == "EOL" && i > 0 && i+1 < len(toks) {
+				eols = append(eols, i)
+			}
+		}
+		if len(eols) == 0 {
+			return c12Input{Class: "missing-EOL", Src: "[\n    [1](List) 2\n](Array)\n", TokenLevel: true}
+		}
+		i := eols[t.Choose(len(eols))]
+		toks = append(toks[:i:i], toks[i+1:]...)
+		return c12Input{Class: "missing-EOL", Src: joinTokens(append(toks, htok{Kind: "EOF"})), TokenLevel: true}
 	default: // the valid document itself, and documents with trailing garbage
 		if t.Choose(2) == 0 {
 			return c12Input{Class: "valid", Src: base.Text, TokenLevel: true}
@@ -259,19 +293,30 @@ func checkC12(ctx *Ctx, in c12Input, out *parseOutcome) {
 		}
 		if in.TokenLevel && in.InjLine == 0 {
 			toks := tokenize(src)
-			far, sentence := viablePrefix(toks)
-			isStart := false
-			for _, t := range toks {
+			far, sentence, keyStart, kindMis := viablePrefixFull(toks)
+			rep := -1
+			for i, t := range toks {
 				if t.Line == line && t.Col == colm {
-					isStart = true
+					rep = i
 				}
 			}
-			if !isStart {
+			if rep < 0 {
 				ctx.Violate("C12", "bad-diagnostic-location", "not-a-token-start", fmt.Sprintf("ParseSource(%s) points at line %d position %d, which is not the start of a token", q, line, colm))
 			} else if !sentence && far < len(toks) {
 				off := toks[far]
-				if line > off.Line || (line == off.Line && colm > off.Col) {
+				switch {
+				case rep == far:
+					ctx.Probe("diag_names_first_offending_token")
+				case rep == keyStart:
+					ctx.Probe("diag_names_unfinished_association_key")
+				case rep < far && unrepresentable(toks[rep]):
+					ctx.Probe("diag_names_unrepresentable_literal")
+				case kindMis && rep == far+1:
+					ctx.Probe("diag_names_context_of_kind_mismatch")
+				case rep > far:
 					ctx.Violate("C12", "bad-diagnostic-location", "later-than-first-offending-token", fmt.Sprintf("ParseSource(%s): no derivation can continue at token %q (line %d position %d) but the diagnostic points later, at line %d position %d", q, off.Text, off.Line, off.Col, line, colm))
+				default:
+					ctx.Violate("C12", "bad-diagnostic-location", "names-an-accepted-token", fmt.Sprintf("ParseSource(%s): the first token at which no derivation can continue is %q (line %d position %d) but the diagnostic names the earlier, already accepted token %q at line %d position %d", q, off.Text, off.Line, off.Col, toks[rep].Text, line, colm))
 				}
 			}
 		}
@@ -296,6 +341,25 @@ func checkC12(ctx *Ctx, in c12Input, out *parseOutcome) {
 }
 
 var frameRe = regexp.MustCompile(`\.\(?\*?([A-Za-z_]+)\)?\.([A-Za-z_]+)\(`)
+
+// unrepresentable: a well-formed token whose literal has no exact value
+// (strconv rejects it); the parser must reject it where it stands (C11).
+func unrepresentable(t htok) bool {
+	var err error
+	switch t.Kind {
+	case "integer":
+		_, err = strconv.ParseInt(t.Text, 10, 64)
+	case "hexadecimal":
+		_, err = strconv.ParseUint(t.Text[2:], 16, 64)
+	case "float":
+		_, err = strconv.ParseFloat(t.Text, 64)
+	case "complex":
+		_, err = strconv.ParseComplex(t.Text, 128)
+	case "rune", "string":
+		_, err = strconv.Unquote(t.Text)
+	}
+	return err != nil
+}
 
 func runtimeSig(out *parseOutcome) string {
 	// schedule-independent: the kind of runtime error and the innermost
